@@ -244,9 +244,10 @@ func checkC13(p *core.Program, r *core.Report) {
 	r.Rule("O13.1", "no unsynchronised write through a reference into shared memory is reachable from the /prove handler")
 	r.Rule("O13.2", "writers of package-level variables are inventoried, unreachable from the handler, and cannot run after server.Run")
 	r.Rule("O13.5", "an object obtained from a sync.Pool is reset (Reset method or whole-object assignment) before any other use")
+	r.Rule("O13.6", "the writer behind every zerolog logger the repository constructs is safe for concurrent use (zerolog writes from the logging goroutine without a lock): no bufio.Writer / bytes.Buffer / strings.Builder sink")
 	r.Rule("O13.3", "an object obtained from a sync.Pool is not used after it was returned to the pool")
 	r.Rule("O13.4", "every blocking acquire on a channel/lock shared by requests (semaphore send/receive, Lock) reachable from the handler is followed by its complementary operation on every path to every exit, error returns included; no request waits on a shared WaitGroup/Cond")
-	r.Trusted = append(r.Trusted, "Go memory model", "groth16.Prove is safe for concurrent use with a shared proving key and constraint system", "zerolog.Logger is safe for concurrent use", "net/http gives every request its own ResponseWriter and Request")
+	r.Trusted = append(r.Trusted, "Go memory model", "groth16.Prove is safe for concurrent use with a shared proving key and constraint system", "zerolog.Logger is safe for concurrent use when its writer is (O13.6)", "net/http gives every request its own ResponseWriter and Request")
 	r.NotDecided = append(r.NotDecided, "races inside third-party libraries", "that each response is the correct one for its request (C07, C09)")
 
 	handler, run, why := proveHandlerFn(p)
@@ -342,6 +343,7 @@ func checkC13(p *core.Program, r *core.Report) {
 
 	// O13.3 sync.Pool typestate
 	checkPoolUse(p, r, reach)
+	checkLoggerSinkConcurrency(p, r)
 	// O13.4 acquire/release pairing on shared synchronisation objects
 	checkSyncPairing(p, r, reach, sh)
 
